@@ -1,6 +1,7 @@
 package main
 
 import (
+	"go/ast"
 	"fmt"
 	"go/token"
 	"go/types"
@@ -50,6 +51,7 @@ func (fr *frame) nilCheck(v ssa.Value, pv *Val, reach string, pos token.Pos) {
 func (fr *frame) execInstr(in ssa.Instruction, st *State, reach string, b *ssa.BasicBlock) {
 	u := fr.u
 	s := u.sorts
+	fr.cur = in
 	switch x := in.(type) {
 	case *ssa.DebugRef:
 		return
@@ -421,6 +423,14 @@ func (fr *frame) execUnOp(x *ssa.UnOp, st *State, reach string) {
 		if lv.kind == lvPure && len(lv.path) == 0 && lv.pval != nil && *lv.pval != nil {
 			fr.vals[x] = *lv.pval
 			return
+		}
+		if !fr.pure {
+			if _, fromHeap := x.X.(*ssa.Alloc); !fromHeap {
+				if lk := lockInside(x.Type(), 0); lk != "" {
+					u.oblige(fr.obName("lock-copy", fr.describe(x.X, 0)), "lock", []string{"C20"}, reach, "false", fr.pos(x.Pos()),
+						"a value carrying "+lk+" is copied: locks taken on the copy exclude nobody who locks the original")
+				}
+			}
 		}
 		term := fr.def("ld", x.Type(), u.read(st, lv))
 		fr.assumeWF(x.Type(), term, st, reach)
@@ -997,21 +1007,127 @@ func (fr *frame) modifiedIn(li *loopInfo) (names ModSet, all bool) {
 }
 
 func (fr *frame) loopInvariants(li *loopInfo) []*Clause {
-	if fr.contract == nil || fr.depth > 0 {
+	if fr.pure {
 		return nil
 	}
 	var res []*Clause
-	for _, c := range fr.contract.Loops {
-		if c.Loop == li.ordinal {
+	if fr.depth == 0 {
+		if fr.contract == nil {
+			return nil
+		}
+		for _, c := range fr.contract.Loops {
+			if c.Loop == li.ordinal {
+				res = append(res, c)
+			}
+		}
+		return res
+	}
+	// A loop in the body of a function without a contract, inlined into the unit: an invariant of the unit's contract
+	// whose own loop is gone from the unit's body (the loop was moved into this helper) is tried here when every variable
+	// it names is a variable of this loop. It is obliged on entry and across the back edge like any other invariant.
+	root := fr.anchorRoot()
+	if root == nil {
+		return nil
+	}
+	for _, c := range root.contract.Loops {
+		if c.Fn == nil || !root.loopGone(c) {
+			continue
+		}
+		ok := true
+		for vi, name := range c.VarNames {
+			if vi < len(c.VarLocal) {
+				name = c.VarLocal[vi]
+			}
+			if !fr.loopHasVar(li, name) {
+				ok = false
+			}
+		}
+		if ok {
 			res = append(res, c)
+			note := fmt.Sprintf("%s: invariant %s (written for loop %d) applied to loop %d of %s (inlined: no contract of its own)", funcName(root.fn), c.Label, c.Loop, li.ordinal, funcName(fr.fn))
+			dup := false
+			for _, r := range fr.u.rebinds {
+				if r == note {
+					dup = true
+				}
+			}
+			if !dup {
+				fr.u.rebinds = append(fr.u.rebinds, note)
+			}
 		}
 	}
 	return res
 }
 
+// loopGone: the loop an invariant of this frame's contract was written for is no longer in the function's body -
+// there are fewer loops than its ordinal, or the loop of that ordinal has none of the variables the invariant names.
+func (fr *frame) loopGone(c *Clause) bool {
+	var li *loopInfo
+	for _, l := range fr.loops {
+		if l.ordinal == c.Loop {
+			li = l
+		}
+	}
+	if li == nil {
+		return true
+	}
+	if len(c.VarNames) == 0 {
+		return false
+	}
+	for vi, name := range c.VarNames {
+		if vi < len(c.VarLocal) {
+			name = c.VarLocal[vi]
+		}
+		if fr.loopHasVar(li, name) {
+			return false
+		}
+	}
+	return true
+}
+
+// loopHasVar: a source-level variable of that name is carried by the loop (phi at its header) or is a local cell or
+// named value of the function that is visible at the loop's header.
+func (fr *frame) loopHasVar(li *loopInfo, name string) bool {
+	if i := strings.Index(name, "."); i > 0 {
+		name = name[:i]
+	}
+	name = strings.TrimSuffix(strings.TrimPrefix(name, "reached:"), "?")
+	for _, in := range li.header.Instrs {
+		if p, ok := in.(*ssa.Phi); ok && p.Comment == name {
+			return true
+		}
+	}
+	for _, l := range fr.fn.Locals {
+		if l.Comment == name && l.Block() != nil && (l.Block() == li.header || l.Block().Dominates(li.header)) {
+			return true
+		}
+	}
+	for _, b := range fr.fn.Blocks {
+		if !(b == li.header || b.Dominates(li.header)) {
+			continue
+		}
+		for _, in := range b.Instrs {
+			if d, ok := in.(*ssa.DebugRef); ok {
+				if id, ok := d.Expr.(*ast.Ident); ok && id.Name == name {
+					return true
+				}
+			}
+		}
+	}
+	for _, p := range fr.fn.Params {
+		if p.Name() == name {
+			return true
+		}
+	}
+	return false
+}
+
 // loopEnv returns the arguments for an invariant spec function: params, named vars, iter.
 func (fr *frame) loopEnv(li *loopInfo, c *Clause, phiVal func(p *ssa.Phi) *Val, st *State) ([]*Val, bool) {
 	args := append([]*Val{}, fr.params...)
+	if root := fr.anchorRoot(); root != nil && root != fr {
+		args = append([]*Val{}, root.params...) // a migrated invariant speaks about the unit's parameters
+	}
 	for vi, name := range c.VarNames {
 		if vi < len(c.VarLocal) {
 			name = c.VarLocal[vi]
@@ -1047,6 +1163,13 @@ func (fr *frame) loopEnv(li *loopInfo, c *Clause, phiVal func(p *ssa.Phi) *Val, 
 		}
 		if found == nil && len(li.header.Instrs) > 0 {
 			found = fr.localNamed(name, li.header.Instrs[0], st)
+		}
+		if found == nil && fr.depth > 0 {
+			for _, p := range fr.fn.Params {
+				if p.Name() == name {
+					found = fr.vals[p]
+				}
+			}
 		}
 		if found == nil {
 			return nil, false
